@@ -98,6 +98,9 @@ func buildMesh(rc *sk.RunCtx, o meshOpts) *meshWorld {
 	}
 	w.faults.baseLatency = time.Duration(1+tp.Choose(20)) * time.Millisecond
 	w.faults.jitter = time.Duration(tp.Choose(5000)) * time.Microsecond
+	if o.noFaults {
+		w.faults.jitter = 0 // constant latency: the network is FIFO
+	}
 
 	ti := o.tryInterval
 	if ti == 0 {
